@@ -10,7 +10,7 @@ TRUSTED_BASE = [
     "Coq 8.16.1 kernel; stdlib axioms inherited from Flocq's binary64 (sig_forall_dec, sig_not_dec, functional_extensionality_dep, classic)",
     "hand-written model of pkg/line, pkg/mapper, pkg/exporter, pkg/registry, pkg/clock tied to the code by differential execution on every run",
     "client_golang (vectors, value semantics, constructor panics, Gather consistency checks) is MODELLED, not verified (Model/ClientGolang.v); summary quantile values, native-histogram fields, timestamps are not compared",
-    "strconv.ParseFloat, regexp, yaml.v2, unicode tables: oracles recorded from the implementation; FNV/xxhash collisions assumed absent; time.Time arithmetic as unbounded integers; amd64 float->int conversion",
+    "strconv.ParseFloat, regexp, yaml.v2, unicode tables: oracles recorded from the implementation; hash collisions inside client_golang's vectors assumed absent (the exporter's own series keys are exact since commit 7f99985); time.Time arithmetic as unbounded integers; amd64 float->int conversion",
     "extraction (ExtrOcamlBasic), ocaml runner, Go harness (-tags verif), Python generators and monitors",
 ]
 
@@ -34,7 +34,7 @@ def describe(ops):
     return out
 
 
-def run(rep, pid, tier, seed, replay, gen_case, monitor, n_quick, n_thorough, rule_text, extra_cases=()):
+def run(rep, pid, tier, seed, replay, gen_case, monitor, n_quick, n_thorough, rule_text, extra_cases=(), known_hang=None):
     """gen_case(rnd) -> (flags, (cache, size), ops, meta).  monitor(rep, case, impl_ops, model_ops) may call
     rep.violation / rep.known / rep.nontrivial."""
     rep.cov["trusted_base"] = TRUSTED_BASE
@@ -61,6 +61,17 @@ def run(rep, pid, tier, seed, replay, gen_case, monitor, n_quick, n_thorough, ru
             opkinds[o[0]] = opkinds.get(o[0], 0) + 1
         payload = dict(flags=fl, cache=list(cache), ops=ops, readable=describe(ops), meta=meta)
         nv = len(rep.violations)
+        if i and i[0].startswith("NOT-RUN"):
+            continue
+        hang = next((k for k, x in enumerate(i) if x.endswith("HANG")), None)
+        if hang is not None:
+            if known_hang and known_hang(meta) and rep.known(known_hang(meta)):
+                continue
+            rep.violation("the exporter hangs: an input or a scrape did not return within 20 s",
+                          dict(payload, op_index=hang, op=describe(ops)[hang] if hang < len(ops) else None, prefix=describe(ops[:hang + 1])))
+            if len(rep.violations) >= 5:
+                break
+            continue
         monitor(rep, case, i, m, payload)
         k = first_diff(i, m)
         if k is not None:
